@@ -239,18 +239,35 @@ def check_pattern(ctx, rng):
     sub = core_
     if rng.random() < 0.4:
         sub = rng.choice(['', ' ', '\t', ' \n']) + sub.replace(' ', rng.choice([' ', '  ', '\t'])) + rng.choice(['', ' ', '\r\n'])
+    # mostly the default cleaning flags; sometimes others (the pattern is always applied to the CLEANED submission)
+    flags = {'case_sensitive': True, 'strip': True, 'strip_all': False, 'clean_spaces': True}
+    if rng.random() < 0.35:
+        flags = rng.choice(list(flagsets()))
+        if not flags['case_sensitive'] and rng.random() < 0.7:
+            sub = sub.upper() if rng.random() < 0.5 else sub.title()
     cfg = {'validation_pattern': pattern, 'explain_validation': mode, 'invalid_msg': 'BAD FORMAT'}
+    cfg.update(flags)
     expect = rng.choice(good)
     if accept_any:
         cfg['accept_any'] = True
     else:
         cfg['answers'] = expect
-    g = StringGrader(**cfg)
+    if ambiguous(sub, flags):
+        return
+    try:
+        g = StringGrader(**cfg)
+    except Exception:  # noqa
+        return
     out = lib.call(ctx, g, None, sub)
     ctx.ev()
     ctx.count('pattern_calls')
-    flags = {'case_sensitive': True, 'strip': True, 'strip_all': False, 'clean_spaces': True}
     cs = ref_clean(sub, **flags)
+    if not accept_any and re.fullmatch(pattern, ref_clean(expect, **flags)) is None:
+        # the author's answer itself does not satisfy the pattern under these flags: a configuration error
+        if out.returned or lib.err_family(out.exc) != 'ConfigError':
+            ctx.violation('C18:pattern:expect_not_fully_matching_accepted', 'answer %r vs pattern %r under %r: %r' % (expect, pattern, flags, out.brief()),
+                          {'config': cfg, 'submission': sub})
+        return
     matches = re.fullmatch(pattern, cs) is not None
     partial = (not matches) and re.match(pattern, cs) is not None and re.match(pattern, cs).end() > 0
     if partial:
